@@ -83,6 +83,16 @@ def run(run, tier, seed):
                 sb.import_table("x", k, True, [names[p] for p in perm], prow)
                 sb.distance("x", n, freqs[-1], allow_ambig=False, threads=1)
                 run.evaluations += 1
+        # a table with more than a thousand variable rows, run with several pool sizes (block-wise or chunked
+        # accumulation must not depend on the thread count or lose a remainder)
+        n, k = 3, 21
+        rows = gen.random_table(rng, k, n, 1101 if tier == "quick" else 4099, alphabet="ACGT-")
+        rows = [[r[0], r[1] if len(set(r[1])) > 1 else [65, 67, 45]] for r in rows]
+        sb.reset()
+        sb.import_table("x", k, True, ["big0", "big1", "big2"], rows)
+        for th in ([2, 3] if tier == "quick" else [1, 2, 3, 5, 7, 16]):
+            sb.distance("x", n, [0, 1000], allow_ambig=(th % 2 == 1), threads=th)
+            run.evaluations += 1
         events = sb.events
     finally:
         sb.close()
